@@ -54,18 +54,25 @@ func TestDrv_AttackRT(t *testing.T) {
 		hits      int
 		maxw      uint64
 		slowFirst time.Duration // latency of the first response
+		du        time.Duration // duration of the attack, 0 = none
+		workers   uint64        // initial workers, 0 = 2
 	}
 	cases := []rtCase{
-		{"zero-then-positive", []time.Duration{0, 20 * ms, 0, 20 * ms, 0, 20 * ms}, 0, 6, 0, 0},
-		{"two-zeros-then-positive", []time.Duration{0, 0, 15 * ms, 0, 0, 15 * ms}, 0, 6, 0, 0},
-		{"negative-then-positive", []time.Duration{-5 * ms, 25 * ms, -1, 10 * ms}, 0, 4, 0, 0},
-		{"positive-only", []time.Duration{5 * ms, 10 * ms, 5 * ms}, 0, 3, 0, 0},
-		{"constant-pacer-catching-up", nil, 20, 8, 1, 180 * ms}, // falls behind during the slow first response: zero waits, then positive ones
-		{"constant-pacer-steady", nil, 100, 15, 0, 0},
-		{"waits-of-microseconds", []time.Duration{20 * time.Microsecond, 45 * time.Microsecond, 10 * time.Microsecond, 30 * time.Microsecond}, 0, 200, 0, 0},
+		{"zero-then-positive", []time.Duration{0, 20 * ms, 0, 20 * ms, 0, 20 * ms}, 0, 6, 0, 0, 0, 0},
+		{"two-zeros-then-positive", []time.Duration{0, 0, 15 * ms, 0, 0, 15 * ms}, 0, 6, 0, 0, 0, 0},
+		{"negative-then-positive", []time.Duration{-5 * ms, 25 * ms, -1, 10 * ms}, 0, 4, 0, 0, 0, 0},
+		{"positive-only", []time.Duration{5 * ms, 10 * ms, 5 * ms}, 0, 3, 0, 0, 0, 0},
+		{"constant-pacer-catching-up", nil, 20, 8, 1, 180 * ms, 0, 0}, // falls behind during the slow first response: zero waits, then positive ones
+		{"constant-pacer-steady", nil, 100, 15, 0, 0, 0, 0},
+		{"waits-of-microseconds", []time.Duration{20 * time.Microsecond, 45 * time.Microsecond, 10 * time.Microsecond, 30 * time.Microsecond}, 0, 200, 0, 0, 0, 0},
 		// a burst, then "idle for ever": the largest wait there is, asked for when some time has already elapsed
-		{"burst-then-idle-forever", []time.Duration{0, 0, 2 * ms, math.MaxInt64, math.MaxInt64, math.MaxInt64, math.MaxInt64}, 0, 1 << 30, 0, 0},
-		{"burst-then-idle-almost-forever", []time.Duration{0, 3 * ms, math.MaxInt64 - time.Duration(ms), math.MaxInt64 - 1, math.MaxInt64 - 1}, 0, 1 << 30, 0, 0},
+		{"burst-then-idle-forever", []time.Duration{0, 0, 2 * ms, math.MaxInt64, math.MaxInt64, math.MaxInt64, math.MaxInt64}, 0, 1 << 30, 0, 0, 0, 0},
+		// durations shorter than the time it takes to get going: the pacer is not asked once the duration is over, not even the first time
+		{"duration-1ns", []time.Duration{0, ms}, 0, 1000, 0, 0, 1, 0},
+		{"duration-1us", []time.Duration{0, ms}, 0, 1000, 0, 0, time.Microsecond, 0},
+		{"duration-300us-many-workers", []time.Duration{0, ms}, 0, 1000, 0, 0, 300 * time.Microsecond, 50000},
+		{"duration-5ms", []time.Duration{ms, 0, ms}, 0, 1000, 0, 0, 5 * ms, 0},
+		{"burst-then-idle-almost-forever", []time.Duration{0, 3 * ms, math.MaxInt64 - time.Duration(ms), math.MaxInt64 - 1, math.MaxInt64 - 1}, 0, 1 << 30, 0, 0, 0, 0},
 	}
 	rounds := 2
 	if thorough() {
@@ -76,14 +83,14 @@ func TestDrv_AttackRT(t *testing.T) {
 		for _, c := range cases {
 			c := c
 			runs++
-			tr.Emit("Reset", KV{"id": runs, "workers": 2, "maxw": map[bool]int{true: int(c.maxw), false: -1}[c.maxw > 0], "du": 0, "name": "rt", "script": "rt:" + c.name})
+			tr.Emit("Reset", KV{"id": runs, "workers": 2, "maxw": map[bool]int{true: int(c.maxw), false: -1}[c.maxw > 0], "du": (c.du + 999) / 1000, "name": "rt", "script": "rt:" + c.name})
 			var first sync.Once
 			rt := roundTripFunc(func(req *http.Request) (*http.Response, error) {
 				first.Do(func() { time.Sleep(c.slowFirst) })
 				return &http.Response{Status: "200 OK", StatusCode: 200, Proto: "HTTP/1.1", ProtoMajor: 1, ProtoMinor: 1, Header: http.Header{},
 					Body: io.NopCloser(bytes.NewReader(nil)), Request: req}, nil
 			})
-			opts := []func(*vegeta.Attacker){vegeta.Client(&http.Client{Transport: rt}), vegeta.Workers(2)}
+			opts := []func(*vegeta.Attacker){vegeta.Client(&http.Client{Transport: rt}), vegeta.Workers(max(2, c.workers))}
 			if c.maxw > 0 {
 				opts = append(opts, vegeta.MaxWorkers(c.maxw))
 			}
@@ -120,7 +127,7 @@ func TestDrv_AttackRT(t *testing.T) {
 				tr.Locked(func() { k = 1 << 20 }) // a later call of the abandoned attack would be logged with an impossible number
 				continue
 			}
-			for range atk.Attack(targeter, pacer, 0, "rt") {
+			for range atk.Attack(targeter, pacer, c.du, "rt") {
 			}
 		}
 	}
